@@ -17,6 +17,8 @@ import Acme.Driver.Dbc
 import Acme.Driver.Md
 import Acme.Driver.Conv
 import Acme.Driver.SaveSel
+import Acme.Driver.Import
+import Acme.Driver.Save
 
 open Acme.Driver
 
@@ -41,6 +43,8 @@ def stepLine (s : DState) (line : String) : DState × String :=
   | "md" :: rest => (s, MdD.handle rest)
   | "cv" :: rest => (s, ConvD.handle rest)
   | "ss" :: rest => (s, SaveSelD.handle rest)
+  | "imp" :: rest => (s, ImportD.handle rest)
+  | "sv" :: rest => (s, SaveD.handle rest)
   | _ => (s, "bad-op")
 
 partial def loop (hin : IO.FS.Stream) (hout : IO.FS.Stream) (s : DState) : IO Unit := do
